@@ -77,16 +77,19 @@ theorem frame_checks (csize : Int) : ∀ (fuel : Nat) (buf : Bytes) (sum : Nat),
           | some blk => exact ih _ _
       · split
         · refine Safe.readByte _ (fun o => ?_)
-          cases o <;> simp only <;> split <;>
-            (first
-              | exact Safe.ret _ (by intro d h; cases h)
-              | (split
-                 · exact Safe.ret _ (by intro d h; cases h)
-                 · rename_i hsz
-                   exact Safe.ret _ (by
-                     intro d h
-                     cases h
-                     simpa using hsz)))
+          cases o with
+          | none => exact Safe.ret _ (by intro d h; cases h)
+          | some x =>
+            simp only
+            split
+            · exact Safe.ret _ (by intro d h; cases h)
+            · split
+              · exact Safe.ret _ (by intro d h; cases h)
+              · rename_i hsz
+                exact Safe.ret _ (by
+                  intro d h
+                  cases h
+                  simpa using hsz)
         · exact Safe.ret _ (by intro d h; cases h)
 
 /-- Non-vacuity of the frame theorem and its converse direction: an intact frame IS accepted and
